@@ -19,7 +19,7 @@ Decided (DESIGN.md C23):
                   the internal constructors (allow-list) are not called from outside kanidmd_lib;
  (f) K1-ldap      LdapServer::do_search / do_compare reach entries only through search_ext / exists with an event whose
                   identity comes from validate_ldap_session;
- (g) K1-handlers  kanidmd_core reads entries only through search_ext (floor) — the image handler is allow-listed (O1).
+ (g) K1-handlers  the request handlers of kanidmd_core (actors::v1_*) read entries only through search_ext (floor) — the image handler is allow-listed (O1).
 Not decided: that the ACP evaluation (receiver/target matching, grant arithmetic) agrees with a reference model over all
 profile sets; filter resolution; LDAP attribute mapping.
 """
@@ -528,6 +528,8 @@ def run(ctx):
     n_ext_calls = 0
     for (caller, callee, resolved, ln, exp, sty) in F.calls(CORE):
         b = base_fn(caller)
+        if not b.startswith("kanidmd_core::actors::v1_"):
+            continue        # request handlers only (admin-socket / CLI helpers act as the internal identity)
         if callee == QST + "search_ext":
             n_ext_calls += 1
             ctx.ok("K1-handlers", b, "reads-via:search_ext", "handler uses search_ext")
